@@ -1,28 +1,53 @@
 #!/usr/bin/env python3
-"""Translator: regenerate lean/OxiddModel/Generated/SrcFacts.lean from /repo's current source.
+"""Translator: regenerate the tables under lean/OxiddModel/Generated/ from /repo's current source.
 
 Purpose-built extraction (regular expressions + bracket matching; no general Rust front end) of the
-places where a hand-written model can drift silently because they are *tables*:
+places where a hand-written model can drift silently because they are *tables*.
+
+Part 1 -> `SrcFacts.lean` (unchanged, byte-identical to what it always produced):
 
   * the operator enums (variant lists, in order),
   * for each `terminal_bin` (BDD, MTBDD, TDD): per `OP == <Enum>::<X>` block the operator tags that
     appear in its `Binary(<Enum>::<Y>, ..)` results (the apply-cache tag each operator is memoised
-    under),
+    under); for BDD and TDD the complete decision lists,
   * the BCDD dispatch tables `apply_quant_dispatch` / `apply_quant_unique_dispatch`
     (operator -> quantifier swapped?, inner kernel, negate f, negate g, negate result),
-  * constants of the hash table (RATIO_N, RATIO_D, MIN_CAP) and the GC water marks.
+  * constants of the hash table (RATIO_N, RATIO_D, MIN_CAP), the GC water marks, memory orderings.
+  A construct of part 1 that cannot be parsed is an error (exit 1).
 
-`OxiddModel/Generated/Obligations.lean` (hand-written, fixed) proves by `decide` that these facts
-satisfy what the models assume. A construct this script cannot parse is an error (exit 1): the
-check then treats it like a broken correspondence, never silently skips it.
+Part 2 -> one file per kind/concern (data of the types in the hand-written `Rules*.lean`):
+
+  * `SrcMtbdd.lean`       MTBDD `terminal_bin`: the decision list of every operator block,
+  * `SrcI64.lean`         `terminal/i64.rs`: the match arms of `add/sub/mul/div/partial_cmp`, `signum`,
+                          the `NumberBase` constants,
+  * `SrcBcddKernels.lean` `terminal_and`/`terminal_xor` as decision lists, the `apply_bin` dispatch,
+                          the derivation of the eight `<op>_edge` functions (both impls), the tag algebra,
+  * `SrcZbddApply.lean`   `apply_union/intsec/diff/symm_diff`: terminal cases, operand sorting, cache
+                          tags, the three arms of the level comparison,
+  * `SrcReduce.lean`      `DiagramRules::reduce` and the free `reduce…` functions of all five kinds.
+  Part 2 never exits with an error and never skips: a construct that is not recognised is listed in
+  an `…Unparsed` definition of the generated file, which the obligation module proves empty.
+
+The hand-written `Generated/Ob*.lean` prove (mostly by `decide`) that these facts satisfy what the
+models assume; the check rebuilds them after every regeneration.
+
+Source root: `--src-root DIR`, else $OXIDD_SRC_ROOT, else $OXIDD_REPO, else /repo.
+Output directory: `--out-dir DIR`, else $OXIDD_GEN_OUT, else <this tree>/lean/OxiddModel/Generated.
 """
 import os
 import re
 import sys
 
-REPO = os.environ.get("OXIDD_REPO", "/repo")
+# source root: `--src-root DIR`, else $OXIDD_SRC_ROOT, else $OXIDD_REPO (used by check.py's callers), else /repo
+# output directory: `--out-dir DIR`, else $OXIDD_GEN_OUT, else <this tree>/lean/OxiddModel/Generated
+def _arg(flag):
+    return sys.argv[sys.argv.index(flag) + 1] if flag in sys.argv and sys.argv.index(flag) + 1 < len(sys.argv) else None
+
+
+REPO = _arg("--src-root") or os.environ.get("OXIDD_SRC_ROOT") or os.environ.get("OXIDD_REPO", "/repo")
 ROOT = os.path.dirname(os.path.dirname(os.path.abspath(__file__)))
-OUT = os.path.join(ROOT, "lean", "OxiddModel", "Generated", "SrcFacts.lean")
+GEN_DIR = _arg("--out-dir") or os.environ.get("OXIDD_GEN_OUT") or os.path.join(ROOT, "lean", "OxiddModel", "Generated")
+OUT = os.path.join(GEN_DIR, "SrcFacts.lean")
 
 
 def read(rel):
@@ -308,6 +333,1518 @@ def orderings(tag, src):
     return rel, lic, fen, lk, ul
 
 
+# ---------------------------------------------------------------------------------------------
+# Part 2: decision lists / tables emitted into their own files (one per kind/concern), so that a
+# change to one table cannot break an unrelated obligation.  Nothing here calls `die()`: a construct
+# that is not recognised is *reported* in an `…Unparsed` list of the generated file, and the
+# obligation module proves that list empty — the check then names it instead of skipping it.
+# ---------------------------------------------------------------------------------------------
+
+GEN_HEADER = "/-! GENERATED by tools/extract_tables.py from /repo's current source — do not edit. -/"
+
+
+def compact(s):
+    return re.sub(r"\s+", "", s)
+
+
+def desc(where, text):
+    """description string of an unparsed construct (safe inside a Lean string literal)"""
+    t = " ".join(text.split())
+    t = t.replace("\\", "/").replace('"', "'")
+    return (where + ": " + t)[:110]
+
+
+def lean_strs(xs):
+    return lean_list(['"' + x + '"' for x in xs])
+
+
+def split_top(s, sep):
+    """split `s` at top-level occurrences of the string `sep` (not inside brackets)"""
+    out, depth, i, last = [], 0, 0, 0
+    while i < len(s):
+        c = s[i]
+        if c in "([{":
+            depth += 1
+        elif c in ")]}":
+            depth -= 1
+        elif depth == 0 and s.startswith(sep, i):
+            # `|` must not split `||`; `=>`/`==` never used as separators here
+            if sep == "|" and (s.startswith("||", i) or (i > 0 and s[i - 1] == "|")):
+                i += 1
+                continue
+            out.append(s[last:i])
+            i += len(sep)
+            last = i
+            continue
+        i += 1
+    out.append(s[last:])
+    return out
+
+
+def strip_outer(s, open_="(", close=")"):
+    """remove redundant outer brackets: `((x))` -> `x`"""
+    s = s.strip()
+    while s.startswith(open_) and s.endswith(close):
+        depth = 0
+        ok = True
+        for i, c in enumerate(s):
+            if c == open_:
+                depth += 1
+            elif c == close:
+                depth -= 1
+                if depth == 0 and i != len(s) - 1:
+                    ok = False
+                    break
+        if not ok:
+            break
+        s = s[1:-1].strip()
+    return s
+
+
+def strip_result(res):
+    """`{ return Ok(x); }` / `return x;` / `x` -> `x` (what the arm evaluates to)"""
+    r = res.strip()
+    r = strip_outer(r, "{", "}")
+    r = r.rstrip(";").strip()
+    r = re.sub(r"^return\b\s*", "", r)
+    m = re.fullmatch(r"Ok\((.*)\)", r, flags=re.S)
+    if m and strip_outer("(" + m.group(1) + ")") == m.group(1).strip():
+        r = m.group(1).strip()
+    return r
+
+
+def op_blocks(src, enum, fn):
+    """[(operator, text of its block)] of the chain `if OP == Enum::X as u8 { .. } else if ..` in `fn`"""
+    src = strip_comments(src)
+    m = re.search(r"fn " + fn + r"\b", src)
+    if not m:
+        return None
+    body, _ = block_after(src, m.end())
+    out, pos = [], 0
+    while True:
+        mm = re.search(r"OP\s*==\s*" + enum + r"::([A-Za-z0-9_]+)\s+as\s+u8\s*", body[pos:])
+        if not mm:
+            break
+        blk, end = block_after(body, pos + mm.end())
+        out.append((mm.group(1), blk))
+        pos = end
+    return out
+
+
+# ---- MTBDD `terminal_bin` -------------------------------------------------------------------
+
+MT_OPS = {"Add": "add", "Sub": "sub", "Mul": "mul", "Div": "div", "Min": "min", "Max": "max"}
+
+
+def mt_pattern(pat):
+    """-> (Lean term of type Mt.Pat, binder names of a `tt` pattern) or None"""
+    parts = re.split(r"\bif\b", pat, maxsplit=1)
+    alts = [compact(a) for a in split_top(parts[0], "|")]
+    guard = compact(parts[1]) if len(parts) > 1 else ""
+    kinds, binders = [], []
+    for a in alts:
+        m = re.fullmatch(r"\((?:Node::)?Terminal\((\w+)\),(?:Node::)?Terminal\((\w+)\)\)", a)
+        if m:
+            kinds.append("tt")
+            binders += [m.group(1), m.group(2)]
+            continue
+        m = re.fullmatch(r"\((?:Node::)?Terminal\((\w+)\),_\)", a)
+        if m:
+            kinds.append("f")
+            binders.append(m.group(1))
+            continue
+        m = re.fullmatch(r"\(_,(?:Node::)?Terminal\((\w+)\)\)", a)
+        if m:
+            kinds.append("g")
+            binders.append(m.group(1))
+            continue
+        if a in ("_", "(_,_)"):
+            kinds.append("any")
+            continue
+        return None
+    ks = sorted(set(kinds))
+    if ks == ["tt"] and len(kinds) == 1 and not guard:
+        return (".tt", binders)
+    if ks == ["any"] and len(kinds) == 1:
+        if not guard:
+            return (".any", [])
+        if guard in ("f>g", "g<f"):
+            return (".anyGt", [])
+        return None
+    if ks in (["f"], ["g"], ["f", "g"]) and len(kinds) == len(ks) and len(set(binders)) == 1:
+        b = binders[0]
+        m = re.fullmatch(r"\(?\*?" + b + r"(?:\.borrow\(\))?\)?\.is_(zero|one|nan)\(\)", guard)
+        if not m:  # `*t.borrow() == T::zero()` is what `is_zero()` is defined as
+            m = re.fullmatch(r"\*" + b + r"(?:\.borrow\(\))?==T::(zero|one|nan)\(\)", guard) or \
+                re.fullmatch(r"T::(zero|one|nan)\(\)==\*" + b + r"(?:\.borrow\(\))?", guard)
+        if not m:
+            return None
+        c = {"f": ".fIs", "g": ".gIs", "fg": ".eitherIs"}["".join(ks)]
+        return (f"({c} .{m.group(1)})", [])
+    return None
+
+
+def mt_select(arms_body):
+    """arms of `match tf.partial_cmp(tg) { .. }` -> (lt, eq, gt, un) as Lean `Mt.Sel` terms, or None"""
+    tab = {}
+    for pat, res in split_arms(arms_body):
+        r = compact(strip_result(res))
+        m = re.fullmatch(r"m\.clone_edge\(&?(f|g)\)", r)
+        if m:
+            v = "." + m.group(1)
+        elif re.fullmatch(r"m\.get_terminal\(T::nan\(\)\)\?", r):
+            v = ".nan"
+        else:
+            return None
+        for alt in split_top(pat, "|"):
+            a = compact(alt)
+            if a == "None":
+                keys = ["None"]
+            elif a == "_":
+                keys = [k for k in ("Less", "Equal", "Greater", "None") if k not in tab]
+            else:
+                m = re.fullmatch(r"Some\((.*)\)", a)
+                if not m:
+                    return None
+                keys = [re.sub(r"^(?:std::cmp::|cmp::)?Ordering::", "", k) for k in m.group(1).split("|")]
+            for k in keys:
+                if k not in ("Less", "Equal", "Greater", "None") or k in tab:
+                    return None
+                tab[k] = v
+    if len(tab) != 4:
+        return None
+    return tuple(tab[k] for k in ("Less", "Equal", "Greater", "None"))
+
+
+def mt_result(res, binders):
+    """-> Lean term of type Mt.Res, or None.  `binders`: the names bound by the arm's `tt` pattern"""
+    raw = strip_result(res)
+    # Done(match tf.partial_cmp(tg) { .. })
+    m = re.match(r"Done\(\s*match\s+(\w+)(?:\.borrow\(\))?\s*\.partial_cmp\(\s*&?(\w+)(?:\.borrow\(\))?\s*\)\s*", raw)
+    if m and len(binders) == 2 and [m.group(1), m.group(2)] == binders:
+        arms, end = block_after(raw, m.end() - 1)
+        if compact(raw[end:]) != ")":
+            return None
+        t = mt_select(arms)
+        return None if t is None else "(.select " + " ".join(t) + ")"
+    r = compact(raw)
+    m = re.fullmatch(r"Done\(m\.clone_edge\(&?(f|g)\)\)", r)
+    if m:
+        return f"(.clone .{m.group(1)})"
+    if re.fullmatch(r"Done\(m\.get_terminal\(T::nan\(\)\)\?\)", r):
+        return ".nan"
+    m = re.fullmatch(r"Binary\(MTBDDOp::(\w+),(f|g)\.borrowed\(\),(f|g)\.borrowed\(\)\)", r)
+    if m and m.group(1) in MT_OPS:
+        return f"(.bin .{MT_OPS[m.group(1)]} .{m.group(2)} .{m.group(3)})"
+    # let val = tf.borrow().add(tg.borrow()); Done(m.get_terminal(val)?)      (or inlined)
+    call = r"(\w+)(?:\.borrow\(\))?\.(add|sub|mul|div)\(&?(\w+)(?:\.borrow\(\))?\)"
+    m = re.fullmatch(r"let(\w+)=" + call + r";Done\(m\.get_terminal\((\w+)\)\?\)", r)
+    if m and m.group(1) == m.group(5):
+        a, meth, b = m.group(2), m.group(3), m.group(4)
+    else:
+        m = re.fullmatch(r"Done\(m\.get_terminal\(" + call + r"\)\?\)", r)
+        if not m:
+            return None
+        a, meth, b = m.group(1), m.group(2), m.group(3)
+    if len(binders) == 2 and [a, b] == binders:
+        return f"(.compute .{meth})"
+    return None
+
+
+def mt_terminal_rules(src):
+    """MTBDD `terminal_bin` -> ([(operator, [Lean MRule terms])], [descriptions of unparsed constructs])"""
+    out, unparsed = [], []
+    blocks = op_blocks(src, "MTBDDOp", "terminal_bin")
+    if not blocks:
+        return [], ["fn terminal_bin (MTBDD): not found or no operator blocks"]
+    for op, blk in blocks:
+        where = "terminal_bin/" + op
+        if op not in MT_OPS:
+            unparsed.append(desc(where, "operator unknown to the model"))
+            continue
+        rules, rest = [], blk
+        me = re.match(r"\s*if\s+f\s*==\s*g\s*", rest)
+        if me:
+            body, end = block_after(rest, me.end())
+            r = mt_result(body, [])
+            if r is None:
+                unparsed.append(desc(where + " if f == g", body))
+            else:
+                rules.append(f"⟨.eq, {r}⟩")
+            rest = rest[end:]
+        mt = re.match(r"\s*match\s*\(\s*m\.get_node\(&?f\)\s*,\s*m\.get_node\(&?g\)\s*,?\s*\)\s*", rest)
+        if not mt:
+            unparsed.append(desc(where, rest))
+            continue
+        arms_body, e2 = block_after(rest, mt.end() - 1)
+        if rest[e2:].strip():
+            unparsed.append(desc(where + " after match", rest[e2:]))
+        for pat, res in split_arms(arms_body):
+            pc = mt_pattern(pat)
+            if pc is None:
+                unparsed.append(desc(where + " pattern", pat))
+                continue
+            rc = mt_result(res, pc[1])
+            if rc is None:
+                unparsed.append(desc(where + " arm " + pat, res))
+                continue
+            rules.append(f"⟨{pc[0]}, {rc}⟩")
+        out.append((op, rules))
+    return out, unparsed
+
+
+def gen_mtbdd(read_):
+    try:
+        rules, unparsed = mt_terminal_rules(read_("crates/oxidd-rules-mtbdd/src/lib.rs"))
+    except Exception as e:  # never crash, never skip: report
+        rules, unparsed = [], [desc("extractor exception", repr(e))]
+    L = ["import OxiddModel.Generated.RulesMtbdd", GEN_HEADER, "namespace OxiddModel.Generated\n"]
+    items = [f"(.{MT_OPS[op]}, {lean_list(rs)})" for op, rs in rules]
+    L.append("/-- `terminal_bin` (mtbdd, `crates/oxidd-rules-mtbdd/src/lib.rs`): operator ↦ decision list, in source order -/")
+    L.append("def termRules_mtbdd : List (Mt.MOp × List Mt.MRule) :=\n  [" + ",\n   ".join(items) + "]")
+    L.append("/-- constructs of `terminal_bin` (mtbdd) that the extractor does not recognise -/")
+    L.append(f"def termRulesUnparsed_mtbdd : List String := {lean_strs(unparsed)}")
+    L.append("\nend OxiddModel.Generated")
+    return {"SrcMtbdd.lean": "\n".join(L) + "\n"}
+
+
+# ---- `I64` terminal arithmetic (`terminal/i64.rs`) --------------------------------------------
+
+I6_CLS = {"NaN": ".nan", "MinusInf": ".ninf", "PlusInf": ".pinf"}
+
+
+class Unparsed(Exception):
+    pass
+
+
+def lean_int(k):
+    return str(k) if k >= 0 else f"({k})"
+
+
+def i6_int(tok):
+    t = compact(tok).replace("_", "")
+    t = re.sub(r"(?:i64|i32|isize)$", "", t)
+    if t in ("i64::MIN", "std::i64::MIN"):
+        return -(2 ** 63)
+    if t in ("i64::MAX", "std::i64::MAX"):
+        return 2 ** 63 - 1
+    if re.fullmatch(r"-?\d+", t):
+        return int(t)
+    raise Unparsed("constant " + tok)
+
+
+def i6_operand_pat(p, side, binders):
+    """one operand pattern -> list of Lean CPat terms (alternatives); records `Num(x)` binders"""
+    out = []
+    for a in split_top(p, "|"):
+        a = re.sub(r"^(?:I64|Self)::", "", compact(a))
+        a = re.sub(r"^&", "", a)
+        if a == "_":
+            out.append(".any")
+        elif a in I6_CLS:
+            out.append(f"(.is {I6_CLS[a]})")
+        else:
+            m = re.fullmatch(r"Num\((\w+)\)", a)
+            if not m:
+                raise Unparsed("operand pattern " + p)
+            if m.group(1) != "_":
+                if binders.get(m.group(1), side) != side:
+                    raise Unparsed("binder used on both sides " + p)
+                binders[m.group(1)] = side
+            out.append("(.is .num)")
+    return out
+
+
+def i6_pattern(pat):
+    """`(P, Q) | (P', Q') [if guard]` -> ([Lean pair terms], guard text or None, binders name->lhs|rhs)"""
+    parts = re.split(r"\bif\b", pat, maxsplit=1)
+    binders, pairs = {}, []
+    for alt in split_top(parts[0], "|"):
+        a = alt.strip()
+        if a == "_":
+            pairs.append("(.any, .any)")
+            continue
+        if not (a.startswith("(") and a.endswith(")")):
+            raise Unparsed("pattern " + pat)
+        comps = split_top(a[1:-1], ",")
+        comps = [c for c in comps if c.strip()]
+        if len(comps) != 2:
+            raise Unparsed("pattern " + pat)
+        for l in i6_operand_pat(comps[0], "lhs", binders):
+            for r in i6_operand_pat(comps[1], "rhs", binders):
+                pairs.append(f"({l}, {r})")
+    return pairs, (parts[1].strip() if len(parts) > 1 else None), binders
+
+
+I6_REL = {"<": "lt", "<=": "le", ">": "gt", ">=": "ge", "==": "eq", "!=": "ne"}
+I6_FLIP = {"lt": "gt", "le": "ge", "gt": "lt", "ge": "le", "eq": "eq", "ne": "ne"}
+
+
+def i6_cond(txt, binders):
+    """Rust Boolean expression over the payloads -> Lean term of type I6.Cond"""
+    t = strip_outer(txt)
+    ors = split_top(t, "||")
+    if len(ors) > 1:
+        r = i6_cond(ors[0], binders)
+        for o in ors[1:]:
+            r = f"(.or {r} {i6_cond(o, binders)})"
+        return r
+    ands = split_top(t, "&&")
+    if len(ands) > 1:
+        r = i6_cond(ands[0], binders)
+        for o in ands[1:]:
+            r = f"(.and {r} {i6_cond(o, binders)})"
+        return r
+    t = t.strip()
+    if t.startswith("!"):
+        return f"(.not {i6_cond(t[1:], binders)})"
+    m = re.fullmatch(r"(.+?)\s*(<=|>=|==|!=|<|>)\s*(.+)", t, flags=re.S)
+    if not m:
+        raise Unparsed("condition " + txt)
+    a, rel, b = compact(m.group(1)).lstrip("*"), I6_REL[m.group(2)], compact(m.group(3)).lstrip("*")
+    if a in binders:
+        return f"(.cmp .{binders[a]} .{rel} {lean_int(i6_int(b))})"
+    if b in binders:
+        return f"(.cmp .{binders[b]} .{I6_FLIP[rel]} {lean_int(i6_int(a))})"
+    raise Unparsed("condition " + txt)
+
+
+def i6_match_head(t, rx):
+    """`match <rx> { arms }` covering all of `t` -> (regex match, arms) or None"""
+    m = re.match(r"match\s+" + rx + r"\s*(?=\{)", t, flags=re.S)
+    if not m:
+        return None
+    arms, end = block_after(t, m.end())
+    if t[end:].strip():
+        return None
+    return m, split_arms(arms)
+
+
+def i6_expr(txt, binders):
+    """result expression of an arm -> Lean term of type I6.Expr"""
+    t = strip_result(txt)
+    t = strip_outer(t, "{", "}").strip()
+    c = re.sub(r"^(?:I64|Self)::", "", compact(t))
+    if c in I6_CLS:
+        return I6_CLS[c]
+    m = re.fullmatch(r"Num\((.*)\)", c)
+    if m:
+        d = re.fullmatch(r"(\w+)/(\w+)", m.group(1))
+        if d:
+            if binders.get(d.group(1)) == "lhs" and binders.get(d.group(2)) == "rhs":
+                return ".tdiv"
+            raise Unparsed("division operands " + t)
+        return f"(.numLit {lean_int(i6_int(m.group(1)))})"
+    # if c { a } else { b }   /   else if
+    m = re.match(r"if\b", t)
+    if m:
+        i = t.index("{")  # conditions contain no braces
+        cond = t[m.end():i]
+        then, end = block_after(t, i)
+        rest = t[end:].strip()
+        if not rest.startswith("else"):
+            raise Unparsed("if without else " + t)
+        rest = rest[4:].strip()
+        return f"(.ite {i6_cond(cond, binders)} {i6_expr(then, binders)} {i6_expr(rest, binders)})"
+    # match lhs.checked_add(rhs) { Some(n) => Num(n), None => e }
+    h = i6_match_head(t, r"(\w+)\s*\.\s*checked_(add|sub|mul)\(\s*(\w+)\s*\)")
+    if h:
+        m, arms = h
+        if binders.get(m.group(1)) != "lhs" or binders.get(m.group(3)) != "rhs":
+            raise Unparsed("checked operands " + t)
+        some, none = None, None
+        for p, r in arms:
+            pc = compact(p)
+            ms = re.fullmatch(r"Some\((\w+)\)", pc)
+            if ms and re.fullmatch(r"(?:I64::|Self::)?Num\(" + ms.group(1) + r"\)", compact(strip_result(r))):
+                some = True
+            elif pc in ("None", "_"):
+                none = i6_expr(r, binders)
+            else:
+                raise Unparsed("checked arm " + p + " => " + r)
+        if not some or none is None:
+            raise Unparsed("checked arms " + t)
+        return f"(.checked .{m.group(2)} {none})"
+    # match lhs.cmp(&0) { Less => .., Equal => .., Greater => .. }
+    h = i6_match_head(t, r"(\w+)\s*\.\s*cmp\(\s*&?\s*([^)]+?)\s*\)")
+    if h:
+        m, arms = h
+        if m.group(1) not in binders:
+            raise Unparsed("cmp operand " + t)
+        tab = {}
+        for p, r in arms:
+            for alt in split_top(p, "|"):
+                k = re.sub(r"^(?:std::cmp::|cmp::)?Ordering::", "", compact(alt))
+                if k not in ("Less", "Equal", "Greater") or k in tab:
+                    raise Unparsed("cmp arm " + p)
+                tab[k] = i6_expr(r, binders)
+        if len(tab) != 3:
+            raise Unparsed("cmp arms " + t)
+        return f"(.cmp3 .{binders[m.group(1)]} {lean_int(i6_int(m.group(2)))} {tab['Less']} {tab['Equal']} {tab['Greater']})"
+    # match self.signum().unwrap() * rhs.signum().unwrap() { 1 => .., -1 => .., _ => .. }
+    h = i6_match_head(t, r"self\.signum\(\)\.unwrap\(\)\s*\*\s*rhs\.signum\(\)\.unwrap\(\)")
+    if h:
+        _, arms = h
+        tab = {}
+        for p, r in arms:
+            k = compact(p)
+            if k not in ("1", "-1", "_") or k in tab:
+                raise Unparsed("signum arm " + p)
+            tab[k] = i6_expr(r, binders)
+        if len(tab) != 3:
+            raise Unparsed("signum arms " + t)
+        return f"(.signProd {tab['1']} {tab['-1']} {tab['_']})"
+    raise Unparsed("expression " + t)
+
+
+def i6_impl_fn(src, trait, fn):
+    """body of `fn <fn>` inside `impl <trait> for I64 { .. }`"""
+    m = re.search(r"impl\s+" + trait + r"\s+for\s+I64\b", src)
+    if not m:
+        raise Unparsed(f"impl {trait} for I64 not found")
+    blk, _ = block_after(src, m.end())
+    bodies = fn_bodies(blk, fn)
+    if len(bodies) != 1:
+        raise Unparsed(f"fn {fn} in impl {trait} for I64 not found")
+    return bodies[0]
+
+
+def i6_match_arms(body, scrut):
+    """arms of the `match (self, rhs) { .. }` that makes up `body` (after optional `use ..;`)"""
+    b = re.sub(r"^\s*(?:use\s+[^;]*;\s*)*", "", body)
+    m = re.match(r"match\s*\(\s*self\s*,\s*" + scrut + r"\s*\)\s*(?=\{)", b)
+    if not m:
+        raise Unparsed("not a single `match (self, " + scrut + ")`: " + b)
+    arms, end = block_after(b, m.end())
+    if b[end:].strip():
+        raise Unparsed("code after the match: " + b[end:])
+    return split_arms(arms)
+
+
+def gen_i64(read_):
+    unparsed = []
+    tables = {}
+    try:
+        src = strip_comments(read_("crates/oxidd-rules-mtbdd/src/terminal/i64.rs"))
+    except Exception as e:
+        src, unparsed = "", [desc("i64.rs", repr(e))]
+    for trait, fn in (("Add", "add"), ("Sub", "sub"), ("Mul", "mul"), ("Div", "div")):
+        rows = []
+        try:
+            for pat, res in i6_match_arms(i6_impl_fn(src, trait, fn), "rhs"):
+                try:
+                    pairs, guard, binders = i6_pattern(pat)
+                    g = "none" if guard is None else f"(some {i6_cond(guard, binders)})"
+                    rows.append(f"⟨{lean_list(pairs)}, {g}, {i6_expr(res, binders)}⟩")
+                except Unparsed as e:
+                    unparsed.append(desc(f"I64::{fn} arm `{pat}`", str(e)))
+        except Exception as e:
+            unparsed.append(desc(f"I64::{fn}", str(e) if isinstance(e, Unparsed) else repr(e)))
+        tables[fn] = rows
+    crows = []
+    try:
+        for pat, res in i6_match_arms(i6_impl_fn(src, "PartialOrd", "partial_cmp"), "other"):
+            try:
+                pairs, guard, binders = i6_pattern(pat)
+                r = compact(strip_result(res))
+                r = re.sub(r"(?:std::cmp::|cmp::)?Ordering::", "", r)
+                m = re.fullmatch(r"Some\((\w+)\.cmp\(&?(\w+)\)\)", r)
+                if guard is not None:
+                    raise Unparsed("guard " + guard)
+                if m and binders.get(m.group(1)) == "lhs" and binders.get(m.group(2)) == "rhs":
+                    v = ".numCmp"
+                elif r in ("Some(Less)", "Some(Equal)", "Some(Greater)"):
+                    v = "." + r[5:-1].lower()
+                elif r == "None":
+                    v = ".unordered"
+                else:
+                    raise Unparsed("result " + res)
+                crows.append(f"⟨{lean_list(pairs)}, {v}⟩")
+            except Unparsed as e:
+                unparsed.append(desc(f"I64::partial_cmp arm `{pat}`", str(e)))
+    except Exception as e:
+        unparsed.append(desc("I64::partial_cmp", str(e) if isinstance(e, Unparsed) else repr(e)))
+    # signum
+    sig = {}
+    try:
+        bodies = [b for b in fn_bodies(src, "signum") if "match self" in b]
+        if len(bodies) != 1:
+            raise Unparsed("fn signum not found")
+        b = bodies[0].strip()
+        m = re.fullmatch(r"Some\(\s*match\s+self\s*(\{.*\})\s*\)", b, flags=re.S)
+        if not m:
+            raise Unparsed("signum body " + b)
+        arms, _ = block_after(m.group(1), 0)
+        for pat, res in split_arms(arms):
+            k = re.sub(r"^(?:I64|Self)::", "", compact(pat))
+            r = compact(strip_result(res))
+            if k in I6_CLS:
+                k = I6_CLS[k]
+            elif re.fullmatch(r"Num\(\w+\)", k):
+                k = ".num"
+            else:
+                raise Unparsed("signum pattern " + pat)
+            if r == "None" and re.match(r"\s*return\b", res):
+                v = ".none"
+            elif re.fullmatch(r"-?\d+", r):
+                v = f"(.lit {lean_int(int(r))})"
+            elif re.fullmatch(r"\w+\.signum\(\)(?:asi\d+)?", r):
+                v = ".ofNum"
+            else:
+                raise Unparsed("signum result " + res)
+            if k in sig:
+                raise Unparsed("signum duplicate arm " + pat)
+            sig[k] = v
+    except Exception as e:
+        unparsed.append(desc("I64::signum", str(e) if isinstance(e, Unparsed) else repr(e)))
+    # NumberBase: constants and which operator a method forwards to
+    consts, meths = [], []
+    try:
+        m = re.search(r"impl\s+NumberBase\s+for\s+I64\b", src)
+        if not m:
+            raise Unparsed("impl NumberBase for I64 not found")
+        blk, _ = block_after(src, m.end())
+        for name in ("zero", "one", "nan"):
+            bs = fn_bodies(blk, name)
+            if len(bs) != 1:
+                raise Unparsed(f"NumberBase::{name} not found")
+            consts.append(f'("{name}", {i6_expr(bs[0], {})})')
+        for name in ("add", "sub", "mul", "div"):
+            bs = fn_bodies(blk, name)
+            mm = re.fullmatch(r"\*?self([-+*/])\*?rhs", compact(strip_result(bs[0]))) if len(bs) == 1 else None
+            if not mm:
+                raise Unparsed(f"NumberBase::{name}: " + (bs[0] if bs else "not found"))
+            meths.append(f'("{name}", "{mm.group(1)}")')
+    except Exception as e:
+        unparsed.append(desc("NumberBase for I64", str(e) if isinstance(e, Unparsed) else repr(e)))
+
+    L = ["import OxiddModel.Generated.RulesI64", GEN_HEADER, "namespace OxiddModel.Generated\n"]
+    for fn in ("add", "sub", "mul", "div"):
+        L.append(f"/-- `impl {fn.capitalize()} for I64` (`terminal/i64.rs`): the arms of `match (self, rhs)`, in source order -/")
+        L.append(f"def i64Arms_{fn} : List I6.Arm :=\n  [" + ",\n   ".join(tables[fn]) + "]")
+    L.append("/-- `impl PartialOrd for I64`: the arms of `match (self, other)` -/")
+    L.append("def i64Arms_partialCmp : List I6.CArm :=\n  [" + ",\n   ".join(crows) + "]")
+    L.append("/-- `I64::signum` (constructor ↦ result), in the order of the enum -/")
+    L.append("def i64Signum : List (I6.Cls × I6.SRes) := " + lean_list([f"({k}, {sig[k]})" for k in (".nan", ".ninf", ".num", ".pinf") if k in sig]))
+    L.append("/-- `impl NumberBase for I64`: the constants `zero()`, `one()`, `nan()` -/")
+    L.append("def i64Consts : List (String × I6.Expr) := " + lean_list(consts))
+    L.append("/-- … and the operator each method forwards to (`self + rhs`, …) -/")
+    L.append("def i64Methods : List (String × String) := " + lean_list(meths))
+    L.append("/-- constructs of `terminal/i64.rs` that the extractor does not recognise -/")
+    L.append(f"def i64Unparsed : List String := {lean_strs(unparsed)}")
+    L.append("\nend OxiddModel.Generated")
+    return {"SrcI64.lean": "\n".join(L) + "\n"}
+
+
+# ---- BCDD kernels `terminal_and` / `terminal_xor`, `apply_bin` dispatch, operator derivations ----
+
+def lean_bool(b):
+    return "true" if b else "false"
+
+
+def bc_tagname(t):
+    t = re.sub(r"^EdgeTag::", "", compact(t))
+    return t if t in ("None", "Complemented") else None
+
+
+def bc_bexpr(txt, names):
+    """Boolean expression over the tags -> Lean Bc.BExpr.  names: {'ft': 'f', 'gt': 'g'}"""
+    t = strip_outer(txt)
+    for sep, ctor in (("||", ".or"), ("&&", ".and")):
+        parts = split_top(t, sep)
+        if len(parts) > 1:
+            r = bc_bexpr(parts[0], names)
+            for o in parts[1:]:
+                r = f"({ctor} {r} {bc_bexpr(o, names)})"
+            return r
+    c = compact(t)
+    if c in ("true", "false"):
+        return f"(.lit {c})"
+    if c.startswith("!"):
+        return f"(.not {bc_bexpr(c[1:], names)})"
+    m = re.fullmatch(r"(.+?)(==|!=)(.+)", c)
+    if m:
+        a, rel, b = m.group(1), m.group(2), m.group(3)
+        if a in names and b in names and a != b:
+            return f"(.tagsEq {lean_bool(rel == '==')})"
+        if b in names and bc_tagname(a):
+            a, b = b, a
+        if a in names and bc_tagname(b):
+            return f"(.tagNone .{names[a]} {lean_bool((bc_tagname(b) == 'None') == (rel == '=='))})"
+    raise Unparsed("tag expression " + txt)
+
+
+def bc_unwrap_done(c):
+    """`Done(EdgeDropGuard::new(manager, X))` / `Done(X)` -> X (compact text) or None"""
+    m = re.fullmatch(r"(?:NodesOrDone::)?Done\((.*)\)", c)
+    if not m:
+        return None
+    x = m.group(1)
+    m2 = re.fullmatch(r"EdgeDropGuard::new\(manager,(.*)\)", x)
+    return m2.group(1) if m2 else x
+
+
+def bc_edge_expr(txt, env, names, tagval):
+    """symbolic value of an edge-valued expression: ('edge', side, negated) | ('const', Lean BExpr).
+    env: variable -> value; tagval: value of `tag` ('None'|'Complemented') or None"""
+    t = strip_outer(strip_outer(txt.strip(), "{", "}"))
+    c = compact(t)
+    m = re.match(r"if\b", t)
+    if m:
+        i = t.index("{")
+        cond = compact(t[m.end():i])
+        then, end = block_after(t, i)
+        rest = t[end:].strip()
+        if not rest.startswith("else"):
+            raise Unparsed("if without else " + t)
+        els = rest[4:].strip()
+        mc = re.fullmatch(r"tag(==|!=)(\S+)", cond) or None
+        if mc is None:
+            mc2 = re.fullmatch(r"(\S+?)(==|!=)tag", cond)
+            if mc2:
+                mc = re.fullmatch(r"tag(==|!=)(\S+)", "tag" + mc2.group(2) + mc2.group(1))
+        if not mc or bc_tagname(mc.group(2)) is None or tagval is None:
+            raise Unparsed("condition " + cond)
+        holds = (bc_tagname(mc.group(2)) == tagval) == (mc.group(1) == "==")
+        return bc_edge_expr(then if holds else els, env, names, tagval)
+    m = re.fullmatch(r"manager\.clone_edge\(&?\*?(\w+)\)", c)
+    if m:
+        v = env.get(m.group(1))
+        if v and v[0] == "edge":
+            return v
+        raise Unparsed("clone of " + m.group(1))
+    m = re.fullmatch(r"not_owned\((.*)\)", c)
+    if m:
+        v = bc_edge_expr(m.group(1), env, names, tagval)
+        if v[0] == "edge":
+            return ("edge", v[1], not v[2])
+        return ("const", f"(.not {v[1]})")
+    m = re.fullmatch(r"get_terminal\(manager,(.*)\)", c)
+    if m:
+        return ("const", bc_bexpr(m.group(1), names))
+    if re.fullmatch(r"\w+", c) and c in env:
+        return env[c]
+    raise Unparsed("edge expression " + txt)
+
+
+def bc_res_lean(v):
+    if v[0] == "edge":
+        return f"(.{'neg' if v[2] else 'clone'} .{v[1]})"
+    return f"(.const {v[1]})"
+
+
+def bc_stmts(body):
+    """split a block into top-level statements (text without the trailing `;`)"""
+    out, depth, last = [], 0, 0
+    for i, ch in enumerate(body):
+        if ch in "([{":
+            depth += 1
+        elif ch in ")]}":
+            depth -= 1
+            if depth == 0 and ch == "}":
+                # a block statement (`if .. { .. }`) ends at its brace unless followed by `else`, `;`, `)` …
+                rest = body[i + 1:].lstrip()
+                head = body[last:i + 1].lstrip()
+                if re.match(r"(if|match)\b", head) and not rest.startswith(("else", ";", ".", "?")):
+                    out.append(body[last:i + 1].strip())
+                    last = i + 1
+        elif ch == ";" and depth == 0:
+            out.append(body[last:i].strip())
+            last = i + 1
+    if body[last:].strip():
+        out.append(body[last:].strip())
+    return [s for s in out if s]
+
+
+def bc_run_tail(stmts, env, names, tagval):
+    """straight-line tail `let x = e; … Done(..)` (or `return Done(..)`) -> symbolic result"""
+    env = dict(env)
+    for k, st in enumerate(stmts):
+        m = re.fullmatch(r"let\s+(?:mut\s+)?(\w+)\s*=\s*(.*)", st, flags=re.S)
+        if m:
+            env[m.group(1)] = bc_edge_expr(m.group(2), env, names, tagval)
+            continue
+        c = compact(re.sub(r"^return\b", "", st.strip()))
+        x = bc_unwrap_done(c)
+        if x is None or k != len(stmts) - 1:
+            raise Unparsed("statement " + st)
+        return bc_edge_expr(x, env, names, tagval)
+    raise Unparsed("no result")
+
+
+def bc_kernel(src, fn):
+    """`terminal_and` / `terminal_xor` -> [Lean KRow terms]; raises Unparsed"""
+    bodies = fn_bodies(src, fn)
+    if len(bodies) != 1:
+        raise Unparsed(f"fn {fn} not found")
+    stmts = [s for s in bc_stmts(bodies[0]) if not re.match(r"use\b", s)]
+    names, untag = {}, {}
+    env = {"f": ("edge", "f", False), "g": ("edge", "g", False)}
+    k = 0
+    while k < len(stmts):
+        c = compact(stmts[k])
+        m = re.fullmatch(r"let(\w+)=(f|g)\.tag\(\)", c)
+        if m:
+            names[m.group(1)] = m.group(2)
+            k += 1
+            continue
+        m = re.fullmatch(r"let(\w+)=(f|g)\.with_tag\((?:EdgeTag::)?None\)", c)
+        if m:
+            untag[m.group(1)] = m.group(2)
+            k += 1
+            continue
+        break
+    if sorted(names.values()) != ["f", "g"] or sorted(untag.values()) != ["f", "g"]:
+        raise Unparsed("tag / untagged-edge bindings " + " ; ".join(stmts[:4]))
+    rows = []
+    # (a) same-node test
+    st = stmts[k]
+    m = re.match(r"if\s+\*?(\w+)\s*==\s*\*?(\w+)\s*(?=\{)", st)
+    if not m or sorted([untag.get(m.group(1)), untag.get(m.group(2))]) != ["f", "g"]:
+        raise Unparsed("same-node test " + st)
+    blk, end = block_after(st, m.end())
+    if st[end:].strip():
+        raise Unparsed("same-node test has an else part " + st[end:])
+    inner = bc_stmts(blk)
+    mi = re.match(r"if\s+(\w+)\s*(==|!=)\s*(\w+)\s*(?=\{)", inner[0]) if inner else None
+    if mi and {mi.group(1), mi.group(3)} == set(names):
+        b2, e2 = block_after(inner[0], mi.end())
+        rest_else = inner[0][e2:].strip()
+        first = bc_run_tail(bc_stmts(b2), env, names, None)
+        if rest_else.startswith("else"):
+            other = bc_run_tail(bc_stmts(strip_outer(rest_else[4:].strip(), "{", "}")), env, names, None)
+            if len(inner) != 1:
+                raise Unparsed("same-node block " + blk)
+        else:
+            other = bc_run_tail(inner[1:], env, names, None)
+        eq_first = mi.group(2) == "=="
+        rows.append(f"⟨.sameEq, {bc_res_lean(first if eq_first else other)}⟩")
+        rows.append(f"⟨.sameNe, {bc_res_lean(other if eq_first else first)}⟩")
+    else:
+        rows.append(f"⟨.same, {bc_res_lean(bc_run_tail(inner, env, names, None))}⟩")
+    k += 1
+    # (b) the match on the node kinds
+    st = stmts[k]
+    m = re.match(r"let\s*\(\s*(\w+)\s*,\s*(\w+)\s*\)\s*=\s*match\s*\(\s*manager\.get_node\(&?(\w+)\)\s*,\s*manager\.get_node\(&?(\w+)\)\s*\)\s*(?=\{)", st)
+    if not m or (m.group(3), m.group(4)) != ("f", "g"):
+        raise Unparsed("node-kind match " + st)
+    hvar, tagvar = m.group(1), m.group(2)
+    if tagvar != "tag":
+        raise Unparsed("tag variable must be called `tag`: " + tagvar)
+    arms, end = block_after(st, m.end())
+    if st[end:].strip():
+        raise Unparsed("after node-kind match " + st[end:])
+    tail = stmts[k + 1:]
+    seen = set()
+    for pat, res in split_arms(arms):
+        pc = re.sub(r"Node::", "", compact(pat))
+        mp = re.fullmatch(r"\((Inner|Terminal)\((\w+)\),(Inner|Terminal)\((\w+)\)\)", pc)
+        if not mp:
+            raise Unparsed("node-kind pattern " + pat)
+        kind = (mp.group(1), mp.group(3))
+        if kind in seen:
+            raise Unparsed("duplicate node-kind pattern " + pat)
+        seen.add(kind)
+        rc = compact(strip_result(res))
+        cond = {("Inner", "Inner"): ".innerInner", ("Terminal", "Terminal"): ".termTerm"}.get(kind)
+        mn = re.fullmatch(r"(?:NodesOrDone::)?Nodes\((\w+),(\w+)\)", rc)
+        if mn:
+            if kind != ("Inner", "Inner") or (mn.group(1), mn.group(2)) != (mp.group(2), mp.group(4)):
+                raise Unparsed("Nodes(..) arm " + pat + " => " + res)
+            rows.append("⟨.innerInner, .nodes⟩")
+            continue
+        mt = re.fullmatch(r"\((f|g),(\w+)\)", rc)
+        if mt:
+            # falls through to the tail with h := side, tag := that operand's tag
+            if mt.group(2) not in names:
+                raise Unparsed("tag in " + res)
+            tag_of = names[mt.group(2)]
+            for tv in ("Complemented", "None"):
+                e2 = dict(env)
+                e2[hvar] = ("edge", mt.group(1), False)
+                r = bc_run_tail(tail, e2, names, tv)
+                if kind == ("Inner", "Terminal") and tag_of == "g":
+                    rows.append(f"⟨.innerTerm {lean_bool(tv == 'Complemented')}, {bc_res_lean(r)}⟩")
+                elif kind == ("Terminal", "Inner") and tag_of == "f":
+                    rows.append(f"⟨.termInner {lean_bool(tv == 'Complemented')}, {bc_res_lean(r)}⟩")
+                else:
+                    # e.g. the inner operand's tag is consulted: no row type for that
+                    raise Unparsed("tag of the wrong operand in " + pat + " => " + res)
+            continue
+        # an arm that returns by itself
+        r = bc_run_tail(bc_stmts(strip_outer(res.strip(), "{", "}")), env, names, None)
+        if cond is None:
+            raise Unparsed("direct return in mixed arm " + pat)
+        rows.append(f"⟨{cond}, {bc_res_lean(r)}⟩")
+    if len(seen) != 4:
+        raise Unparsed("node-kind match does not have the four arms")
+    return rows
+
+
+def bc_apply_bin(src):
+    """the `match super::terminal_<k>(..)` blocks of `apply_bin` -> [Lean ARow terms], done arms ok?"""
+    bodies = fn_bodies(src, "apply_bin")
+    if len(bodies) != 1:
+        raise Unparsed("fn apply_bin not found")
+    body = bodies[0]
+    rows, ops = [], []
+    for m in re.finditer(r"match\s+(?:super::)?terminal_(and|xor)\(\s*manager\s*,\s*&f\s*,\s*&g\s*\)\s*(?=\{)", body):
+        kern = m.group(1)
+        # which operator block are we in?  `if OP == BCDDOp::And as u8 {` or `else { assert_eq!(OP, BCDDOp::Xor as u8);`
+        before = body[:m.start()]
+        mo = list(re.finditer(r"OP\s*==\s*BCDDOp::(\w+)\s+as\s+u8|assert_eq!\(\s*OP\s*,\s*BCDDOp::(\w+)\s+as\s+u8\s*\)", before))
+        if not mo:
+            raise Unparsed("operator test before terminal_" + kern)
+        op = mo[-1].group(1) or mo[-1].group(2)
+        ops.append(op)
+        arms, _ = block_after(body, m.end())
+        done = False
+        for pat, res in split_arms(arms):
+            pc = compact(pat).replace("NodesOrDone::", "")
+            rc = compact(strip_result(res))
+            md = re.fullmatch(r"Done\((\w+)\)", pc)
+            if md:
+                if rc not in (f"Ok({md.group(1)}.into_edge())", f"{md.group(1)}.into_edge()"):
+                    raise Unparsed("Done arm " + res)
+                done = True
+                continue
+            mn = re.fullmatch(r"Nodes\((\w+),(\w+)\)(?:if(f<g|g>f))?", pc)
+            mr = re.fullmatch(r"\(BCDDOp::(\w+),(f|g)\.borrowed\(\),(\w+),(f|g)\.borrowed\(\),(\w+)\)", rc)
+            if not mn or not mr:
+                raise Unparsed("apply_bin arm " + pat + " => " + res)
+            node_of = {"f": mn.group(1), "g": mn.group(2)}
+            paired = (mr.group(2) != mr.group(4) and node_of[mr.group(2)] == mr.group(3) and node_of[mr.group(4)] == mr.group(5))
+            rows.append(f'⟨"{op}", .{kern}, {lean_bool(mn.group(3) is not None)}, "{mr.group(1)}", .{mr.group(2)}, {lean_bool(paired)}⟩')
+        if not done:
+            raise Unparsed("no Done arm for terminal_" + kern)
+    if not rows:
+        raise Unparsed("no terminal_and/terminal_xor match in apply_bin")
+    return rows
+
+
+def bc_derivations(block, unparsed, where):
+    """`<op>_edge` functions of one `impl BooleanFunction` block -> [Lean DRow terms]"""
+    fns = {}
+    for name in ("and", "or", "nand", "nor", "xor", "equiv", "imp", "imp_strict"):
+        bs = fn_bodies(block, name + "_edge")
+        if len(bs) == 1:
+            fns[name] = bs[0]
+        else:
+            unparsed.append(desc(where, f"fn {name}_edge not found"))
+
+    def operand(txt, env):
+        c = compact(txt)
+        m = re.fullmatch(r"not\(&?(\w+)\)", c)
+        if m and m.group(1) in env and env[m.group(1)][0] == "edge":
+            v = env[m.group(1)]
+            return ("edge", v[1], not v[2])
+        m = re.fullmatch(r"&?(\w+)(?:\.borrowed\(\))?", c)
+        if m and m.group(1) in env and env[m.group(1)][0] == "edge":
+            return env[m.group(1)]
+        raise Unparsed("operand " + txt)
+
+    def value(txt, env, depth):
+        t = strip_outer(txt.strip())
+        c = compact(t)
+        if c.endswith("?"):
+            return value(t.rstrip()[:-1], env, depth)
+        m = re.fullmatch(r"Ok\((.*)\)", c)
+        if m:
+            return value(t[t.index("(") + 1:t.rindex(")")], env, depth)
+        m = re.fullmatch(r"not_owned\((.*)\)", c)
+        if m:
+            v = value(t[t.index("(") + 1:t.rindex(")")], env, depth)
+            if v[0] == "res":
+                return ("res", v[1], v[2], v[3], not v[4])
+            raise Unparsed("not_owned of an operand " + txt)
+        m = re.match(r"(?:Self::)?(\w+)_edge\(", c)
+        if m and m.group(1) in fns:
+            args = split_top(t[t.index("(") + 1:t.rindex(")")], ",")
+            args = [a for a in args if a.strip()]
+            if len(args) != 3 or depth > 4:
+                raise Unparsed("call " + txt)
+            a, b = operand(args[1], env), operand(args[2], env)
+            return run(m.group(1), a, b, depth + 1)
+        m = re.match(r"apply_and\(", c)
+        kern = "and" if m else None
+        if not m:
+            m = re.match(r"apply_bin::<[^>]*BCDDOp::(And|Xor)asu8\}?,?>\(", c)
+            kern = m.group(1).lower() if m else None
+        if kern:
+            args = [a for a in split_top(t[t.index("(", t.index("apply_")) + 1:t.rindex(")")], ",") if a.strip()]
+            if len(args) != 4:
+                raise Unparsed("kernel call " + txt)
+            return ("res", kern, operand(args[2], env), operand(args[3], env), False)
+        if re.fullmatch(r"\w+", c) and c in env and env[c][0] == "res":
+            return env[c]
+        raise Unparsed("expression " + txt)
+
+    def run(name, a, b, depth=0):
+        env = {"lhs": a, "rhs": b}
+        stmts = bc_stmts(fns[name])
+        for k, st in enumerate(stmts):
+            m = re.fullmatch(r"let\s+(\w+)\s*=\s*(.*)", st, flags=re.S)
+            if m:
+                rhs = m.group(2)
+                if re.match(r"(SequentialRecursor|ParallelRecursor::new\(manager\))\s*$", rhs.strip()):
+                    env[m.group(1)] = ("rec",)
+                    continue
+                try:
+                    env[m.group(1)] = operand(rhs, env)
+                except Unparsed:
+                    env[m.group(1)] = value(rhs, env, depth)
+                continue
+            m = re.fullmatch(r"let\s*\(([^)]*)\)\s*=\s*\((.*)\)", st, flags=re.S)
+            if m:
+                vs = [v.strip() for v in m.group(1).split(",") if v.strip()]
+                es = [e for e in split_top(m.group(2), ",") if e.strip()]
+                if len(vs) != len(es):
+                    raise Unparsed("tuple binding " + st)
+                new = [operand(e, env) for e in es]
+                for v, e in zip(vs, new):
+                    env[v] = e
+                continue
+            if k != len(stmts) - 1:
+                raise Unparsed("statement " + st)
+            return value(re.sub(r"^return\b", "", st), env, depth)
+        raise Unparsed("no result in " + name + "_edge")
+
+    rows = []
+    for name in ("and", "or", "nand", "nor", "xor", "equiv", "imp", "imp_strict"):
+        if name not in fns:
+            continue
+        try:
+            v = run(name, ("edge", "f", False), ("edge", "g", False))
+            if v[0] != "res" or {v[2][1], v[3][1]} != {"f", "g"}:
+                raise Unparsed("result does not apply a kernel to both operands")
+            swapped = v[2][1] == "g"
+            fa, ga = (v[3], v[2]) if swapped else (v[2], v[3])
+            opname = {"and": "And", "or": "Or", "nand": "Nand", "nor": "Nor", "xor": "Xor", "equiv": "Equiv", "imp": "Imp", "imp_strict": "ImpStrict"}[name]
+            rows.append(f'⟨"{opname}", .{v[1]}, {lean_bool(fa[2])}, {lean_bool(ga[2])}, {lean_bool(v[4])}, {lean_bool(swapped)}⟩')
+        except Unparsed as e:
+            unparsed.append(desc(f"{where} {name}_edge", str(e)))
+    return rows
+
+
+def bc_tag_tables(src, unparsed):
+    """`impl Not for EdgeTag`, `impl BitXor for EdgeTag`, `get_terminal`, `not`, `not_owned`"""
+    nt, bx, gt, nots = [], [], [], []
+    try:
+        m = re.search(r"impl\s+(?:std::ops::)?Not\s+for\s+EdgeTag\b", src)
+        blk, _ = block_after(src, m.end())
+        body = fn_bodies(blk, "not")[0]
+        mm = re.match(r"\s*match\s+self\s*(?=\{)", body)
+        arms, _ = block_after(body, mm.end())
+        for pat, res in split_arms(arms):
+            a, b = bc_tagname(pat), bc_tagname(strip_result(res))
+            if a is None or b is None:
+                raise Unparsed("arm " + pat + " => " + res)
+            nt.append((a, b))
+    except Exception as e:
+        unparsed.append(desc("impl Not for EdgeTag", str(e) if isinstance(e, Unparsed) else repr(e)))
+    try:
+        m = re.search(r"impl\s+(?:std::ops::)?BitXor\s+for\s+EdgeTag\b", src)
+        blk, _ = block_after(src, m.end())
+        body = re.sub(r"^\s*(?:use\s+[^;]*;\s*)*", "", fn_bodies(blk, "bitxor")[0])
+        mm = re.match(r"\s*match\s*\(\s*self\s*,\s*rhs\s*\)\s*(?=\{)", body)
+        arms, _ = block_after(body, mm.end())
+        for pat, res in split_arms(arms):
+            mp = re.fullmatch(r"\((\S+),(\S+)\)", compact(pat))
+            vals = (bc_tagname(mp.group(1)), bc_tagname(mp.group(2)), bc_tagname(strip_result(res))) if mp else (None,)
+            if None in vals:
+                raise Unparsed("arm " + pat + " => " + res)
+            bx.append(vals)
+    except Exception as e:
+        unparsed.append(desc("impl BitXor for EdgeTag", str(e) if isinstance(e, Unparsed) else repr(e)))
+    try:
+        body = [b for b in fn_bodies(src, "get_terminal") if "val" in b][0]
+        c = compact(body)
+        m = re.fullmatch(r"let(\w+)=manager\.get_terminal\(BCDDTerminal\)\.unwrap\(\);ifval\{(.*?)\}else\{(.*?)\}", c)
+        if not m:
+            raise Unparsed(body)
+        for val, e in (("true", m.group(2)), ("false", m.group(3))):
+            if e == m.group(1):
+                gt.append((val, "None"))
+            else:
+                mt = re.fullmatch(m.group(1) + r"\.with_tag_owned\((?:EdgeTag::)?(None|Complemented)\)", e)
+                if not mt:
+                    raise Unparsed("branch " + e)
+                gt.append((val, mt.group(1)))
+    except Exception as e:
+        unparsed.append(desc("fn get_terminal", str(e) if isinstance(e, Unparsed) else repr(e)))
+    for name, setter in (("not_owned", "with_tag_owned"), ("not", "with_tag")):
+        try:
+            bs = [b for b in fn_bodies(src, name) if "match self" not in b]
+            c = compact(bs[0]) if bs else ""
+            m = re.fullmatch(r"let(\w+)=e\.tag\(\);e\." + setter + r"\(!(\w+)\)", c)
+            if not m or m.group(1) != m.group(2):
+                raise Unparsed(bs[0] if bs else "not found")
+            nots.append(name)
+        except Exception as e:
+            unparsed.append(desc("fn " + name, str(e) if isinstance(e, Unparsed) else repr(e)))
+    return nt, bx, gt, nots
+
+
+def gen_bcdd_kernels(read_):
+    unparsed = []
+    kern = {"and": [], "xor": []}
+    arows, drows, drows_mt = [], [], []
+    nt, bx, gt, nots = [], [], [], []
+    try:
+        mod = strip_comments(read_("crates/oxidd-rules-bdd/src/complement_edge/mod.rs"))
+        app = strip_comments(read_("crates/oxidd-rules-bdd/src/complement_edge/apply_rec.rs"))
+        for k in ("and", "xor"):
+            try:
+                kern[k] = bc_kernel(mod, "terminal_" + k)
+            except Exception as e:
+                unparsed.append(desc("terminal_" + k, str(e) if isinstance(e, Unparsed) else repr(e)))
+        try:
+            arows = bc_apply_bin(app)
+        except Exception as e:
+            unparsed.append(desc("apply_bin", str(e) if isinstance(e, Unparsed) else repr(e)))
+        impls = [m for m in re.finditer(r"impl\s*<[^{]*?>\s*BooleanFunction\s+for\s+BCDDFunction(MT)?\b", app)]
+        seen = set()
+        for m in impls:
+            blk, _ = block_after(app, m.end())
+            if m.group(1):
+                drows_mt = bc_derivations(blk, unparsed, "BooleanFunction for BCDDFunctionMT")
+            else:
+                drows = bc_derivations(blk, unparsed, "BooleanFunction for BCDDFunction")
+            seen.add(bool(m.group(1)))
+        if seen != {True, False}:
+            unparsed.append(desc("apply_rec.rs", "impl BooleanFunction for BCDDFunction / BCDDFunctionMT not both found"))
+        nt, bx, gt, nots = bc_tag_tables(mod, unparsed)
+    except Exception as e:
+        unparsed.append(desc("extractor exception", repr(e)))
+    L = ["import OxiddModel.Generated.RulesBcdd", GEN_HEADER, "namespace OxiddModel.Generated\n"]
+    for k in ("and", "xor"):
+        L.append(f"/-- `terminal_{k}` (`complement_edge/mod.rs`) as a decision list, in the order the code tests the cases -/")
+        L.append(f"def kernelRows_{k} : List Bc.KRow :=\n  [" + ",\n   ".join(kern[k]) + "]")
+    L.append("/-- the `Nodes(..)` arms of `apply_bin` (`complement_edge/apply_rec.rs`) -/")
+    L.append("def applyBinRows : List Bc.ARow :=\n  [" + ",\n   ".join(arows) + "]")
+    L.append("/-- `impl BooleanFunction for BCDDFunction`: each `<op>_edge` as `[¬] kernel([¬]lhs, [¬]rhs)` (calls followed) -/")
+    L.append("def deriveRows : List Bc.DRow :=\n  [" + ",\n   ".join(drows) + "]")
+    L.append("/-- … and for the multi-threaded `BCDDFunctionMT` -/")
+    L.append("def deriveRowsMT : List Bc.DRow :=\n  [" + ",\n   ".join(drows_mt) + "]")
+    L.append("/-- `impl Not for EdgeTag` -/")
+    L.append("def tagNot : List (String × String) := " + lean_list([f'("{a}", "{b}")' for a, b in nt]))
+    L.append("/-- `impl BitXor for EdgeTag` -/")
+    L.append("def tagXor : List (String × String × String) := " + lean_list([f'("{a}", "{b}", "{c}")' for a, b, c in bx]))
+    L.append("/-- `get_terminal(manager, val)`: value ↦ tag of the edge to the single terminal -/")
+    L.append("def getTerminalTag : List (Bool × String) := " + lean_list([f'({a}, "{b}")' for a, b in gt]))
+    L.append("/-- the functions among `not`, `not_owned` recognised as `e.with_tag(!e.tag())` -/")
+    L.append("def tagFlippers : List String := " + lean_strs(nots))
+    L.append("/-- constructs of the BCDD kernels / dispatch that the extractor does not recognise -/")
+    L.append(f"def bcddKernelsUnparsed : List String := {lean_strs(unparsed)}")
+    L.append("\nend OxiddModel.Generated")
+    return {"SrcBcddKernels.lean": "\n".join(L) + "\n"}
+
+
+# ---- ZBDD set operations `apply_union/intsec/diff/symm_diff` -----------------------------------
+
+ZB_FNS = [("union", "apply_union", "Union"), ("intsec", "apply_intsec", "Intsec"), ("diff", "apply_diff", "Diff"), ("symmDiff", "apply_symm_diff", "SymmDiff")]
+
+
+def zb_atom(txt):
+    c = compact(strip_outer(txt))
+    for a, b in ((r"\*?f", r"\*?g"), (r"\*?g", r"\*?f")):
+        if re.fullmatch(a + "==" + b, c):
+            return ".fEqG"
+    m = re.fullmatch(r"\*(f|g)==\*empty", c) or re.fullmatch(r"\*empty==\*(f|g)", c)
+    if m:
+        return ".fEmpty" if m.group(1) == "f" else ".gEmpty"
+    raise Unparsed("condition atom " + txt)
+
+
+def zb_opnd(txt, env):
+    c = compact(txt)
+    m = re.fullmatch(r"&?(\w+)(?:\.borrowed\(\))?", c)
+    if m and m.group(1) in env and env[m.group(1)][0] == "o":
+        return env[m.group(1)][1]
+    raise Unparsed("operand " + txt)
+
+
+def zb_arm(block, fname, env0):
+    """one arm of `match flevel.cmp(&glevel)` -> Lean RArm term"""
+    env = dict(env0)
+    stmts = bc_stmts(strip_outer(block.strip(), "{", "}"))
+
+    def rec_call(txt):
+        t = txt.strip()
+        if t.endswith("?"):
+            t = t[:-1].strip()
+        m = re.fullmatch(fname + r"\(\s*manager\s*,\s*rec\s*,(.*)\)", t, flags=re.S)
+        if not m:
+            return None
+        args = [a for a in split_top(m.group(1), ",") if a.strip()]
+        if len(args) != 2:
+            raise Unparsed("recursive call " + txt)
+        return (zb_opnd(args[0], env), zb_opnd(args[1], env))
+
+    for k, st in enumerate(stmts):
+        m = re.fullmatch(r"let\s*\(\s*(\w+)\s*,\s*(\w+)\s*\)\s*=\s*collect_children\(\s*(f|g)node\.unwrap_inner\(\)\s*\)", st)
+        if m:
+            env[m.group(1)] = ("o", m.group(3) + "hi")
+            env[m.group(2)] = ("o", m.group(3) + "lo")
+            continue
+        m = re.fullmatch(r"let\s+(\w+)\s*=\s*(f|g)node\.unwrap_inner\(\)\.child\(\s*(LO|HI)\s*\)", st)
+        if m:
+            env[m.group(1)] = ("o", m.group(2) + m.group(3).lower())
+            continue
+        m = re.fullmatch(r"let\s*\(\s*(\w+)\s*,\s*(\w+)\s*\)\s*=\s*rec\.binary\(\s*" + fname + r"\s*,\s*manager\s*,\s*\((.*?)\)\s*,\s*\((.*?)\)\s*,?\s*\)\?", st, flags=re.S)
+        if m:
+            p1 = [a for a in split_top(m.group(3), ",") if a.strip()]
+            p2 = [a for a in split_top(m.group(4), ",") if a.strip()]
+            if len(p1) != 2 or len(p2) != 2:
+                raise Unparsed("rec.binary " + st)
+            env[m.group(1)] = ("r", zb_opnd(p1[0], env), zb_opnd(p1[1], env))
+            env[m.group(2)] = ("r", zb_opnd(p2[0], env), zb_opnd(p2[1], env))
+            continue
+        m = re.fullmatch(r"let\s+(\w+)\s*=\s*(.*)", st, flags=re.S)
+        if m:
+            r = rec_call(m.group(2))
+            if r is None:
+                raise Unparsed("binding " + st)
+            env[m.group(1)] = ("r",) + r
+            continue
+        if k != len(stmts) - 1:
+            raise Unparsed("statement " + st)
+        t = re.sub(r"^return\b", "", st).strip()
+        r = rec_call(t)
+        if r is not None:
+            return f"(.direct .{r[0]} .{r[1]})"
+        m = re.fullmatch(r"(reduce|reduce_borrowed)\(\s*manager\s*,\s*(f|g)level\s*,(.*)\)", t, flags=re.S)
+        if not m:
+            raise Unparsed("result " + st)
+        args = [a for a in split_top(m.group(3), ",") if a.strip()]
+        if len(args) != 3:
+            raise Unparsed("reduce arguments " + st)
+        ch = []
+        for a in args[:2]:
+            v = env.get(re.sub(r"\.into_edge\(\)$", "", compact(a)))
+            if v is None:
+                raise Unparsed("child " + a)
+            ch.append(f"(.thru .{v[1]})" if v[0] == "o" else f"(.call .{v[1]} .{v[2]})")
+        return f"(.node {lean_bool(m.group(2) == 'f')} {ch[0]} {ch[1]})"
+    raise Unparsed("empty arm")
+
+
+def zb_fn(src, lean_op, fname, tag):
+    bodies = fn_bodies(src, fname)
+    if len(bodies) != 1:
+        raise Unparsed(f"fn {fname} not found")
+    stmts = bc_stmts(bodies[0])
+    term, swap = [], False
+    k = 0
+    # prologue up to the cache query
+    while k < len(stmts):
+        st = stmts[k]
+        c = compact(st)
+        if re.match(r"if\s+rec\.should_switch_to_sequential\(\)", st) or re.match(r"use\b", st) or re.match(r"stat!", st):
+            k += 1
+            continue
+        if re.fullmatch(r"letempty=EdgeDropGuard::new\(manager,manager\.get_terminal\(ZBDDTerminal::Empty\)\.unwrap\(\)\)", c):
+            k += 1
+            continue
+        m = re.match(r"if\s+(?!let\b)(.*?)\s*(?=\{)", st, flags=re.S)
+        if m and "apply_cache" not in st:
+            blk, end = block_after(st, m.end())
+            if st[end:].strip():
+                raise Unparsed("terminal case with else " + st)
+            if swap:
+                raise Unparsed("terminal case after the operand swap " + st)
+            atoms = [zb_atom(a) for a in split_top(m.group(1), "||")]
+            r = compact(strip_result(blk))
+            res = {"manager.clone_edge(&f)": ".cloneF", "manager.clone_edge(&g)": ".cloneG", "empty.into_edge()": ".empty"}.get(r)
+            if res is None or not re.match(r"\s*return\b", blk):
+                raise Unparsed("terminal case result " + blk)
+            term.append(f"⟨{lean_list(atoms)}, {res}⟩")
+            k += 1
+            continue
+        if re.fullmatch(r"let\(f,g\)=iff>g\{\(g,f\)\}else\{\(f,g\)\}", c) or re.fullmatch(r"let\(f,g\)=ifg<f\{\(g,f\)\}else\{\(f,g\)\}", c) \
+                or re.fullmatch(r"let\(f,g\)=iff<g\{\(f,g\)\}else\{\(g,f\)\}", c) or re.fullmatch(r"let\(f,g\)=iff<=g\{\(f,g\)\}else\{\(g,f\)\}", c):
+            swap = True
+            k += 1
+            continue
+        break
+    rest = stmts[k:]
+    text = " ; ".join(rest)
+    mg = re.search(r"\.apply_cache\(\)\s*\.get\(\s*manager\s*,\s*(?:ZBDDOp::)?(\w+)\s*,\s*&\[\s*(\w+)\.borrowed\(\)\s*,\s*(\w+)\.borrowed\(\)\s*\]\s*\)", text)
+    ma = re.search(r"\.apply_cache\(\)\s*\.add\(\s*manager\s*,\s*(?:ZBDDOp::)?(\w+)\s*,\s*&\[\s*(\w+)(?:\.borrowed\(\))?\s*,\s*(\w+)(?:\.borrowed\(\))?\s*\]\s*,\s*h\.borrowed\(\)\s*,?\s*\)", text)
+    if not mg or not ma:
+        raise Unparsed("apply cache get/add")
+    key_ok = (mg.group(2), mg.group(3)) == ("f", "g") and (ma.group(2), ma.group(3)) == ("f", "g")
+    # statements between: fnode/gnode/flevel/glevel bindings, then `let h = match flevel.cmp(&glevel) {..}?`
+    expect = {"fnode": "manager.get_node(&f)", "gnode": "manager.get_node(&g)", "flevel": "fnode.level()", "glevel": "gnode.level()"}
+    arms = None
+    for st in rest:
+        c = compact(st)
+        m = re.fullmatch(r"let(\w+)=(.*)", c)
+        if m and m.group(1) in expect:
+            if m.group(2) != expect[m.group(1)]:
+                raise Unparsed("binding " + st)
+            del expect[m.group(1)]
+            continue
+        m = re.match(r"let\s+h\s*=\s*match\s+flevel\.cmp\(\s*&glevel\s*\)\s*(?=\{)", st)
+        if m:
+            body, end = block_after(st, m.end())
+            if compact(st[end:]) != "?":
+                raise Unparsed("after the level match " + st[end:])
+            arms = split_arms(body)
+    if expect or arms is None:
+        raise Unparsed("node/level bindings or level match missing")
+    env0 = {"f": ("o", "f"), "g": ("o", "g")}
+    got = {}
+    for pat, res in arms:
+        key = re.sub(r"^(?:std::cmp::|cmp::)?Ordering::", "", compact(pat))
+        if key not in ("Less", "Equal", "Greater") or key in got:
+            raise Unparsed("level arm " + pat)
+        got[key] = zb_arm(res, fname, env0)
+    if len(got) != 3:
+        raise Unparsed("level match needs Less/Equal/Greater")
+    return (f"⟨.{lean_op}, {lean_list(term)}, {lean_bool(swap)}, \"{mg.group(1)}\", \"{ma.group(1)}\", {lean_bool(key_ok)},\n"
+            f"    {got['Less']},\n    {got['Equal']},\n    {got['Greater']}⟩")
+
+
+def gen_zbdd_apply(read_):
+    unparsed, fns = [], []
+    try:
+        src = strip_comments(read_("crates/oxidd-rules-zbdd/src/apply_rec.rs"))
+        for lean_op, fname, tag in ZB_FNS:
+            try:
+                fns.append(zb_fn(src, lean_op, fname, tag))
+            except Exception as e:
+                unparsed.append(desc(fname, str(e) if isinstance(e, Unparsed) else repr(e)))
+    except Exception as e:
+        unparsed.append(desc("extractor exception", repr(e)))
+    L = ["import OxiddModel.Generated.RulesZbdd", GEN_HEADER, "namespace OxiddModel.Generated\n"]
+    L.append("/-- `apply_union`, `apply_intsec`, `apply_diff`, `apply_symm_diff` (`oxidd-rules-zbdd/src/apply_rec.rs`): terminal cases, operand normalisation, cache tags, and the three arms of `match flevel.cmp(&glevel)` -/")
+    L.append("def zbddApplyFns : List Zb.ZFn :=\n  [" + ",\n   ".join(fns) + "]")
+    L.append("/-- constructs of these functions that the extractor does not recognise -/")
+    L.append(f"def zbddApplyUnparsed : List String := {lean_strs(unparsed)}")
+    L.append("\nend OxiddModel.Generated")
+    return {"SrcZbddApply.lean": "\n".join(L) + "\n"}
+
+
+# ---- `reduce` of every kind -----------------------------------------------------------------------
+
+def fn_defs(src, name):
+    """[(signature text, body)] of all `fn <name>` definitions with a body (comments stripped by caller)"""
+    out = []
+    for m in re.finditer(r"fn " + name + r"\b", src):
+        depth, j = 0, m.end()
+        # the body's `{` is the first one at bracket depth 0 (generics `<..>` contain no braces)
+        while j < len(src) and not (src[j] == "{" and depth == 0) and not (src[j] == ";" and depth == 0):
+            if src[j] in "([":
+                depth += 1
+            elif src[j] in ")]":
+                depth -= 1
+            j += 1
+        if j < len(src) and src[j] == "{":
+            body, _ = block_after(src, j)
+            out.append((src[m.start():j], body))
+    return out
+
+
+def rd_child(txt, names):
+    """`t`, `t.into_edge()`, `manager.clone_edge(&hi)` -> position"""
+    c = compact(txt)
+    m = re.fullmatch(r"(?:manager\.clone_edge\(&(\w+)\)|(\w+)(?:\.into_edge\(\))?)", c)
+    v = (m.group(1) or m.group(2)) if m else None
+    if v in names:
+        return names.index(v)
+    raise Unparsed("child " + txt)
+
+
+def rd_cond(cond, names):
+    c = compact(strip_outer(cond))
+    m = re.fullmatch(r"manager\.get_node\(&(\w+)\)\.is_terminal\(&ZBDDTerminal::Empty\)", c)
+    if m and m.group(1) in names:
+        return f"(.isEmpty {names.index(m.group(1))})"
+    comp = {n: {n} for n in names}
+    used = set()
+    for part in split_top(c, "&&"):
+        mm = re.fullmatch(r"(\w+)==(\w+)", strip_outer(part))
+        if not mm or mm.group(1) not in names or mm.group(2) not in names:
+            raise Unparsed("condition " + cond)
+        a, b = mm.group(1), mm.group(2)
+        merged = comp[a] | comp[b]
+        for x in merged:
+            comp[x] = merged
+        used |= {a, b}
+    groups = {frozenset(comp[u]) for u in used}
+    if len(groups) != 1:
+        raise Unparsed("condition does not connect its operands " + cond)
+    idxs = sorted(names.index(x) for x in next(iter(groups)))
+    return f"(.allEq {lean_list([str(i) for i in idxs])})"
+
+
+def rd_names(sig, body):
+    names = re.findall(r"let\s+(?:mut\s+)?(\w+)\s*=\s*it\.next\(\)\.unwrap\(\)", body)
+    if names:
+        return names
+    return re.findall(r"(\w+)\s*:\s*(?:Borrowed<\s*)?M::Edge\b", sig)
+
+
+def rd_plain(kind, label, sig, body, dr_row):
+    """a reduce function of a kind without tags -> fields of a RedRow (dict)"""
+    names = rd_names(sig, body)
+    if not names:
+        raise Unparsed("children not found in " + sig)
+    m = re.search(r"<\s*\w+\s+as\s+DiagramRules<[^>]*>>::reduce\(\s*manager\s*,\s*level\s*,\s*\[(.*?)\]\s*,?\s*\)", body, flags=re.S)
+    if m:
+        order = [rd_child(a, names) for a in split_top(m.group(1), ",") if a.strip()]
+        if dr_row is None or order != list(range(len(names))) or len(names) != dr_row["arity"]:
+            raise Unparsed("delegation to DiagramRules::reduce permutes or drops children")
+        return dict(dr_row, fn=label, delegates=True)
+    stmts = bc_stmts(body)
+    cond = ret = None
+    for st in stmts:
+        mi = re.match(r"if\s+(?!let\b)(.*?)\s*(?=\{)", st, flags=re.S)
+        if not mi:
+            continue
+        blk, end = block_after(st, mi.end())
+        cond = rd_cond(mi.group(1), names)
+        mr = re.search(r"(?:ReducedOrNew::Reduced\(|\bOk\()\s*(\w+)(?:\.into_edge\(\))?\s*\)", blk)
+        if not mr or mr.group(1) not in names:
+            raise Unparsed("reduced result " + blk)
+        ret = names.index(mr.group(1))
+        break
+    if cond is None:
+        raise Unparsed("no reduction test")
+    news = re.findall(r"(?:\bN|M::InnerNode)::new\(\s*level\s*,\s*\[(.*?)\]\s*,?\s*\)", body, flags=re.S)
+    if len(news) != 1:
+        raise Unparsed(f"{len(news)} node constructions")
+    children = [rd_child(a, names) for a in split_top(news[0], ",") if a.strip()]
+    return dict(kind=kind, fn=label, arity=len(names), cond=cond, ret=ret, children=children, delegates=False)
+
+
+def rd_tagop(txt, names, tagvars):
+    """child of a BCDD node -> (position, TagOp)"""
+    c = compact(txt)
+    m = re.fullmatch(r"(\w+)\.with_tag_owned\((.*)\)", c)
+    if not m:
+        return (rd_child(txt, names), ".keep")
+    if m.group(1) not in names:
+        raise Unparsed("child " + txt)
+    i, a = names.index(m.group(1)), m.group(2)
+    if bc_tagname(a) == "None":
+        return (i, ".setNone")
+    if bc_tagname(a) == "Complemented":
+        return (i, ".setCompl")
+    mm = re.fullmatch(r"!(\w+)", a)
+    if mm and tagvars.get(mm.group(1)) == m.group(1):
+        return (i, ".flip")
+    raise Unparsed("tag of child " + txt)
+
+
+def rd_bcdd(label, sig, body):
+    names = rd_names(sig, body)
+    if len(names) != 2:
+        raise Unparsed("children not found in " + sig)
+    stmts = bc_stmts(body)
+    eq_ret = None
+    tagvars = {m.group(1): m.group(2) for m in re.finditer(r"let\s+(\w+)\s*=\s*(\w+)\.tag\(\)", body)}
+    arms = None
+    for st in stmts:
+        mi = re.match(r"(?:let\s*\(\s*\w+\s*,\s*\w+\s*\)\s*=\s*)?if\s+(.*?)\s*(?=\{)", st, flags=re.S)
+        if not mi:
+            continue
+        blk, end = block_after(st, mi.end())
+        c = compact(mi.group(1))
+        if eq_ret is None:
+            if rd_cond(mi.group(1), names) != "(.allEq [0, 1])":
+                raise Unparsed("first test " + mi.group(1))
+            mr = re.search(r"(?:ReducedOrNew::Reduced\(|\bOk\()\s*(\w+)\s*\)", blk)
+            if not mr or mr.group(1) not in names:
+                raise Unparsed("reduced result " + blk)
+            eq_ret = names.index(mr.group(1))
+            continue
+        mt = re.fullmatch(r"(\w+)(==|!=)(\S+)", c)
+        if not mt or mt.group(1) not in tagvars:  # constant on the left
+            m2 = re.fullmatch(r"(\S+?)(==|!=)(\w+)", c)
+            mt = re.fullmatch(r"(\w+)(==|!=)(\S+)", m2.group(3) + m2.group(2) + m2.group(1)) if m2 else None
+        if not mt or mt.group(1) not in tagvars or bc_tagname(mt.group(3)) is None:
+            raise Unparsed("tag test " + mi.group(1))
+        rest = st[end:].strip()
+        if not rest.startswith("else"):
+            raise Unparsed("tag test without else")
+        els, _ = block_after(rest, 4)
+        compl_first = (bc_tagname(mt.group(3)) == "Complemented") == (mt.group(2) == "==")
+        arms = (names.index(tagvars[mt.group(1)]), blk if compl_first else els, els if compl_first else blk)
+    if eq_ret is None or arms is None:
+        raise Unparsed("reduction test or tag test missing")
+
+    def arm(txt):
+        news = re.findall(r"(?:\bN|M::InnerNode)::new\(\s*level\s*,\s*\[(.*?)\]\s*,?\s*\)", txt, flags=re.S)
+        outs = re.findall(r"EdgeTag::(None|Complemented)\s*\)\s*;?\s*$", txt.strip())
+        if len(news) != 1 or len(outs) != 1:
+            raise Unparsed("arm " + txt)
+        ch = [rd_tagop(a, names, tagvars) for a in split_top(news[0], ",") if a.strip()]
+        return lean_list([f"({i}, {o})" for i, o in ch]), outs[0]
+
+    cc, co = arm(arms[1])
+    pc, po = arm(arms[2])
+    return f'⟨"{label}", {eq_ret}, {arms[0]}, {cc}, "{co}", {pc}, "{po}"⟩'
+
+
+def gen_reduce(read_):
+    unparsed, rows, brows = [], [], []
+    kinds = [("bdd", "crates/oxidd-rules-bdd/src/simple/mod.rs", ["reduce"]),
+             ("zbdd", "crates/oxidd-rules-zbdd/src/lib.rs", ["reduce", "reduce_borrowed", "reduce1"]),
+             ("mtbdd", "crates/oxidd-rules-mtbdd/src/lib.rs", ["reduce"]),
+             ("tdd", "crates/oxidd-rules-tdd/src/lib.rs", ["reduce"])]
+    for kind, path, fns in kinds:
+        try:
+            src = strip_comments(read_(path))
+            defs = fn_defs(src, "reduce")
+            dr = [d for d in defs if "children" in d[0] and "IntoIterator" in d[0]]
+            free = [d for d in defs if d not in dr]
+            dr_row = None
+            if len(dr) == 1:
+                try:
+                    dr_row = rd_plain(kind, "DiagramRules::reduce", dr[0][0], dr[0][1], None)
+                    rows.append(dr_row)
+                except Exception as e:
+                    unparsed.append(desc(f"{kind} DiagramRules::reduce", str(e) if isinstance(e, Unparsed) else repr(e)))
+            else:
+                unparsed.append(desc(kind, "DiagramRules::reduce not found"))
+            for fn in fns:
+                ds = free if fn == "reduce" else fn_defs(src, fn)
+                if len(ds) != 1:
+                    unparsed.append(desc(kind, f"fn {fn} not found"))
+                    continue
+                try:
+                    rows.append(rd_plain(kind, fn, ds[0][0], ds[0][1], dr_row))
+                except Exception as e:
+                    unparsed.append(desc(f"{kind} {fn}", str(e) if isinstance(e, Unparsed) else repr(e)))
+        except Exception as e:
+            unparsed.append(desc(kind, repr(e)))
+    try:
+        src = strip_comments(read_("crates/oxidd-rules-bdd/src/complement_edge/mod.rs"))
+        defs = fn_defs(src, "reduce")
+        if len(defs) != 2:
+            unparsed.append(desc("bcdd", f"{len(defs)} reduce functions"))
+        for sig, body in defs:
+            label = "DiagramRules::reduce" if "IntoIterator" in sig else "reduce"
+            try:
+                brows.append(rd_bcdd(label, sig, body))
+            except Exception as e:
+                unparsed.append(desc("bcdd " + label, str(e) if isinstance(e, Unparsed) else repr(e)))
+    except Exception as e:
+        unparsed.append(desc("bcdd", repr(e)))
+    L = ["import OxiddModel.Generated.RulesReduce", GEN_HEADER, "namespace OxiddModel.Generated\n"]
+    items = [f'⟨"{r["kind"]}", "{r["fn"]}", {r["arity"]}, {r["cond"]}, {r["ret"]}, {lean_list([str(c) for c in r["children"]])}, {lean_bool(r["delegates"])}⟩' for r in rows]
+    L.append("/-- `DiagramRules::reduce` and the free `reduce…` functions of the kinds without edge tags -/")
+    L.append("def reduceRows : List Rd.RedRow :=\n  [" + ",\n   ".join(items) + "]")
+    L.append("/-- the two BCDD reduction functions (`complement_edge/mod.rs`) with their tag normalisation -/")
+    L.append("def reduceRowsBcdd : List Rd.BcddRed :=\n  [" + ",\n   ".join(brows) + "]")
+    L.append("/-- constructs of the reduction functions that the extractor does not recognise -/")
+    L.append(f"def reduceUnparsed : List String := {lean_strs(unparsed)}")
+    L.append("\nend OxiddModel.Generated")
+    return {"SrcReduce.lean": "\n".join(L) + "\n"}
+
+
 def lean_list(xs):
     return "[" + ", ".join(xs) + "]"
 
@@ -419,6 +1956,20 @@ def main():
         print("extract_tables: SrcFacts.lean regenerated (changed)")
     else:
         print("extract_tables: SrcFacts.lean up to date")
+    files = {}
+    for gen in PART2:
+        files.update(gen(read))
+    for name in sorted(files):
+        path = os.path.join(GEN_DIR, name)
+        old = open(path, encoding="utf-8").read() if os.path.exists(path) else None
+        if old != files[name]:
+            open(path, "w", encoding="utf-8").write(files[name])
+            print(f"extract_tables: {name} regenerated (changed)")
+        else:
+            print(f"extract_tables: {name} up to date")
+
+
+PART2 = [gen_mtbdd, gen_i64, gen_bcdd_kernels, gen_zbdd_apply, gen_reduce]
 
 
 if __name__ == "__main__":
